@@ -34,25 +34,10 @@ func runC20(r *Run) {
 	reg := r.Region("GENESIS", []string{"chain/genesis.NewGenesis"}, false)
 	r.Determinism("GENESIS", reg, ccrTriage, "the genesis momentum is a pure function of the configuration")
 	wr := "chain/genesis.wrap"
-	r.Has(wr, "common.DealWithErr(a1.SetBalance(next(range(a0.GenesisBlocks.Blocks[(iter+1)].BalanceList))#1,next(range(a0.GenesisBlocks.Blocks[(iter+1)].BalanceList))#2))", "every (token, balance) of an entry is written")
-	r.Branch(wr, "ne(a0.GenesisBlocks.Blocks[(iter+1)].Address,a1.Address())", "entries are selected by address")
-	r.LoopNoEarlyExit(wr, "a0.GenesisBlocks.Blocks", "every entry of the unordered Blocks list that names the address contributes; stopping at the first match makes the state depend on the order of entries and drops balances the validators counted")
+	genesisSupplyRules(r)
 	r.Has(wr, "store new(nom.AccountBlock).ChangesHash = db.PatchHash(a1.Changes()#0)", "the genesis block commits to its state")
 	r.Has("chain/genesis.newGenesisMomentum", "nom.NewMomentumContent(a1.GetAllUncommittedAccountBlocks())", "content is canonicalised (sorted) by NewMomentumContent before hashing")
 	r.Has("chain/genesis.newGenesisMomentum", "time.Unix(a0.GenesisTimestampSec,0)", "timestamp comes from the configuration")
-
-	// (2) validators on the load path
-	rd := "chain/genesis.ReadGenesisConfigFromFile"
-	r.Order(rd, "chain/genesis.CheckGenesis", "chain/genesis.NewGenesis", "a configuration is turned into a chain only after it passed validation")
-	cg := "chain/genesis.CheckGenesis"
-	for _, v := range []string{"CheckFieldsExist", "CheckUniqueBalances", "CheckPlasmaInfo", "CheckSwapAccount", "CheckPillarBalance", "CheckTokenTotalSupply"} {
-		r.Guards([]row{{F: cg, C: "ne(genesis." + v + "(a0),nil)", Why: "validator " + v + " is wired and its failure rejects the configuration"}})
-	}
-	ts := "chain/genesis.CheckTokenTotalSupply"
-	r.GuardLike(ts, "F(make(map[types.ZenonTokenStandard]*big.Int)[", "a declared token with no balance entry is refused")
-	r.GuardLike(ts, "ne(a0.TokenConfig.Tokens[(iter+1)].TotalSupply,make(map[types.ZenonTokenStandard]*big.Int)[", "declared supply must equal the sum of the balances, in both directions")
-	r.GuardLike(ts, "F(phi(false|true))", "a balance in an undeclared token is refused")
-	r.Branch(ts, "eq(a0.TokenConfig.Tokens[(iter+1)].TokenStandard,next(range(make(map[types.ZenonTokenStandard]*big.Int)))#1)", "the undeclared-token scan compares every summed token with every declared token")
 
 	// (3) database compatibility
 	ci := "chain.(*chain).Init"
@@ -67,7 +52,31 @@ func runC20(r *Run) {
 	r.HasPrefix(cc, "recv.momentumPool.AddMomentumTransaction(recv.AcquireInsert(…),recv.Genesis.GetGenesisTransaction())", "an empty store receives exactly the configured genesis transaction")
 	r.Returns("chain/momentum.(*momentumStore).GetMomentumByHeight", []string{"momentum.parseMomentum(db.GetEntryByHeight(recv.DB,a0)#0,db.GetEntryByHeight(recv.DB,a0)#1)#0, momentum.parseMomentum(db.GetEntryByHeight(recv.DB,a0)#0,db.GetEntryByHeight(recv.DB,a0)#1)#1"}, "the height lookup reads the stored record only — never the configured genesis — so the compatibility check compares store against configuration")
 
-	// (4) constructor/validator agreement, error discipline
+	r.NoDroppedErrors([]string{"chain/genesis.newGenesisAccountBlocks", "chain/genesis.genesisSporkContractConfig", "chain/genesis.genesisPillarContractConfig", "chain/genesis.genesisTokenContractConfig", "chain/genesis.genesisPlasmaContractConfig", "chain/genesis.genesisSwapContractConfig", "chain/genesis.wrap", "chain/genesis.newGenesisMomentum", "chain/genesis.NewGenesis"},
+		map[string]string{"chain/genesis.newGenesisAccountBlocks|iface:chain.AccountPool.AddAccountBlockTransaction": "inserting the first block of an address into the fresh in-memory pool fails only for an address that already has a block; embedded addresses are skipped through alreadySet and repeated addresses are refused by CheckUniqueBalances (rule K10-constructor-validator)"},
+		"a construction step that fails must not be skipped silently: the resulting genesis would differ from the validated configuration")
+}
+
+// genesisSupplyRules: the initial state is exactly what the validated configuration declares — every
+// listed balance is written, the validators are wired and compare the declared supply with the sum
+// in both directions, and constructor and validator aggregate the list the same way (shared by C20, C01).
+func genesisSupplyRules(r *Run) {
+	wr := "chain/genesis.wrap"
+	r.Has(wr, "common.DealWithErr(a1.SetBalance(next(range(a0.GenesisBlocks.Blocks[(iter+1)].BalanceList))#1,next(range(a0.GenesisBlocks.Blocks[(iter+1)].BalanceList))#2))", "every (token, balance) of an entry is written")
+	r.Branch(wr, "ne(a0.GenesisBlocks.Blocks[(iter+1)].Address,a1.Address())", "entries are selected by address")
+	r.LoopNoEarlyExit(wr, "a0.GenesisBlocks.Blocks", "every entry of the unordered Blocks list that names the address contributes; stopping at the first match makes the state depend on the order of entries and drops balances the validators counted")
+	rd := "chain/genesis.ReadGenesisConfigFromFile"
+	r.Order(rd, "chain/genesis.CheckGenesis", "chain/genesis.NewGenesis", "a configuration is turned into a chain only after it passed validation")
+	cg := "chain/genesis.CheckGenesis"
+	for _, v := range []string{"CheckFieldsExist", "CheckUniqueBalances", "CheckPlasmaInfo", "CheckSwapAccount", "CheckPillarBalance", "CheckTokenTotalSupply"} {
+		r.Guards([]row{{F: cg, C: "ne(genesis." + v + "(a0),nil)", Why: "validator " + v + " is wired and its failure rejects the configuration"}})
+	}
+	ts := "chain/genesis.CheckTokenTotalSupply"
+	r.GuardLike(ts, "F(make(map[types.ZenonTokenStandard]*big.Int)[", "a declared token with no balance entry is refused")
+	r.GuardLike(ts, "ne(a0.TokenConfig.Tokens[(iter+1)].TotalSupply,make(map[types.ZenonTokenStandard]*big.Int)[", "declared supply must equal the sum of the balances, in both directions")
+	r.GuardLike(ts, "F(phi(false|true))", "a balance in an undeclared token is refused")
+	r.Branch(ts, "eq(a0.TokenConfig.Tokens[(iter+1)].TokenStandard,next(range(make(map[types.ZenonTokenStandard]*big.Int)))#1)", "the undeclared-token scan compares every summed token with every declared token")
+
 	// keyed lists the constructor treats as one state entry per key
 	dup := false
 	wired := map[string]bool{}
@@ -121,7 +130,4 @@ func runC20(r *Run) {
 	} else {
 		r.viol("K10-constructor-validator", wr, "repeated (address, token) balance in GenesisBlocks.Blocks", "genesis.wrap writes balances with SetBalance per (address, token) entry — for an address listed twice with the same token the last entry wins — while CheckTokenTotalSupply sums all entries, and no wired validator rejects a repeated address or (address, token) pair: such a configuration passes CheckGenesis with declared supply ≠ Σ balances of the constructed state", "constructor and validator must aggregate the same list the same way", file, line)
 	}
-	r.NoDroppedErrors([]string{"chain/genesis.newGenesisAccountBlocks", "chain/genesis.genesisSporkContractConfig", "chain/genesis.genesisPillarContractConfig", "chain/genesis.genesisTokenContractConfig", "chain/genesis.genesisPlasmaContractConfig", "chain/genesis.genesisSwapContractConfig", "chain/genesis.wrap", "chain/genesis.newGenesisMomentum", "chain/genesis.NewGenesis"},
-		map[string]string{"chain/genesis.newGenesisAccountBlocks|iface:chain.AccountPool.AddAccountBlockTransaction": "inserting the first block of an address into the fresh in-memory pool fails only for an address that already has a block; embedded addresses are skipped through alreadySet and repeated addresses are refused by CheckUniqueBalances (rule K10-constructor-validator)"},
-		"a construction step that fails must not be skipped silently: the resulting genesis would differ from the validated configuration")
 }
